@@ -176,6 +176,7 @@ func closureSites(p *an.Prog) map[*ssa.Function][]*ssa.MakeClosure {
 }
 
 type escapeInfo struct {
+	p     *an.Prog
 	sites map[*ssa.Function][]*ssa.MakeClosure
 	why   map[*ssa.Function]string // "" = does not escape
 }
@@ -186,7 +187,7 @@ func escapes(p *an.Prog) *escapeInfo {
 	if e := escapeCache[p]; e != nil {
 		return e
 	}
-	e := &escapeInfo{sites: closureSites(p), why: map[*ssa.Function]string{}}
+	e := &escapeInfo{p: p, sites: closureSites(p), why: map[*ssa.Function]string{}}
 	for fn, sites := range e.sites {
 		for _, mc := range sites {
 			if why := valueEscapes(mc, map[ssa.Value]bool{}); why != "" {
@@ -418,6 +419,30 @@ func fvNames(fn *ssa.Function) string {
 }
 
 func underOnceDo(esc *escapeInfo, fn *ssa.Function) bool {
+	// a method passed as a method value (once.Do(w.resolve)): the closure is of the synthetic wrapper
+	// that calls it; the method itself must not be called from anywhere else
+	for wrapper := range esc.sites {
+		if wrapper == fn || wrapper.Synthetic == "" || unwrapBound(wrapper) != fn {
+			continue
+		}
+		if !underOnceDo(esc, wrapper) {
+			continue
+		}
+		direct := false
+		for _, f := range esc.p.Funcs {
+			if f == wrapper {
+				continue
+			}
+			an.EachInstr(f, func(in ssa.Instruction) {
+				if c, ok := in.(ssa.CallInstruction); ok && c.Common().StaticCallee() == fn {
+					direct = true
+				}
+			})
+		}
+		if !direct {
+			return true
+		}
+	}
 	for _, mc := range esc.sites[fn] {
 		refs := mc.Referrers()
 		if refs == nil {
